@@ -93,6 +93,28 @@ Theorem c11_reversed_sites :
 Proof. exact reversed_sites. Qed.
 Print Assumptions c11_reversed_sites.
 
+(* model of the route-list clean-up (correct_json_route_list, one request): what survives only names ROADMs and
+   line elements of the topology and comes from the user's list (a STRICT unknown name / transceiver raises instead) *)
+Theorem c11_clean_route_valid :
+  forall n s t nodes_list strict_list out_n out_s,
+  length nodes_list = length strict_list ->
+  clean_route n s t nodes_list strict_list = Ok (out_n, out_s) ->
+  (forall y, In y out_n -> is_roadm n y = true \/ is_line n y = true) /\ incl out_n nodes_list.
+Proof. exact clean_route_valid. Qed.
+Print Assumptions c11_clean_route_valid.
+
+(* proposed repair of F11/F11b (explicit_path validated before it is returned), partial: every explicit answer is a
+   route of the request, every other answer is the reference search; optimality of an explicit answer is not proved *)
+Theorem c11_model_ccp_checked_partial :
+  forall n s t nodes_list strict_list r,
+  model_ccp_checked n s t nodes_list strict_list = Ok r ->
+  match r with
+  | CExplicit p => Route (ngraph n) s t (removelast nodes_list) p
+  | CSearch o => o = model_route (ngraph n) s t (removelast nodes_list) (existsb (fun b => b) (removelast strict_list))
+  end.
+Proof. exact model_ccp_checked_partial. Qed.
+Print Assumptions c11_model_ccp_checked_partial.
+
 (* ---------- non-vacuity ---------- *)
 (* square 1-2-4 / 1-3-4 with a chord: two routes, includes select the longer one, a STRICT impossible list blocks *)
 Definition ex_g : graph := [(1, [(2, 5); (3, 1)]); (2, [(4, 5)]); (3, [(4, 1); (2, 1)]); (4, [])].
@@ -117,3 +139,11 @@ Proof. vm_compute. split; reflexivity. Qed.
 Example c11_ex_ccp_search :
   model_ccp f11_net 0 4 [3; 4] [false; true] = Ok (CSearch (RPath [0; 1; 8; 5; 4])).
 Proof. vm_compute. reflexivity. Qed.
+Example c11_ex_clean :
+  clean_route f11_net 0 4 [0; 3; -1; 8; 2; 4] [true; true; false; false; false; true] = Ok ([3; 8], [true; false]) /\
+  clean_route f11_net 0 4 [3; -1] [false; true] = Err "ServiceError:strict constraint can not be applied".
+Proof. vm_compute. split; reflexivity. Qed.
+Example c11_ex_checked :
+  model_ccp_checked f11_net 0 4 [6; 7; 8; 4] [true; true; true; true] = Ok (CSearch (RBlock "NO_PATH_WITH_CONSTRAINT")) /\
+  model_ccp_checked f11_net 0 4 [8; 4] [true; true] = Ok (CExplicit [0; 1; 8; 5; 4]).
+Proof. vm_compute. split; reflexivity. Qed.
